@@ -122,7 +122,7 @@ def main():
         objs, evs = [], []
         for k in range(K):
             online = rng.random() < 0.5
-            ops = _c05.UNTIMED if online else _c04.DENSE_OPS
+            ops = (_c05.UNTIMED + _c05.TIMED_P) if online else _c04.DENSE_OPS
             g = Gen(rng, vars_=vs, S=S, ops=ops, ivs=_c04.IVS, bool_atoms=True)
             for _ in range(30):
                 phi = g.formula(rng.choice([1, 2, 2]))
@@ -132,8 +132,17 @@ def main():
                 phi = bi("and", *[pred("ge", var(v), const(0)) for v in (vs * 2)[:2]])
             objs.append(ct_obj(phi, S, vs))
             evs.append(ev_parse(k + 1))
+        # the signals cut into caller-owned chunks; chained chunks repeat the boundary sample (the usual way of feeding them)
+        sched = {v: rng.choice(_c05.splits(len(w[v]))) for v in vs}
+        chained = rng.random() < 0.6
         for k in range(K):
             online = not (ops_of(objs[k]["phi"]) & FUT) and rng.random() < 0.6
+            if online and rng.random() < 0.6:
+                chunks = (_c05.overlap_events if chained else _c05.schedule_events)(w, sched, k + 1)
+                for j, e in enumerate(chunks):
+                    e["share"] = "chunk%d" % j          # every online object of the case receives the same list objects
+                    evs.append(e)
+                continue
             evs.append(ev_ct("update" if online else "evaluate", w, k + 1, share="sig"))
             if not online and rng.random() < 0.4:
                 evs.append(ev_ct("evaluate", w, k + 1, share="sig"))      # evaluated again on the same data
